@@ -63,6 +63,9 @@ def hostile(shard, rnd):
     for depth in shard.get('deep_fault', ()):
         for x in faults.deep_fault_frames(rnd, depth):
             yield x
+    for depth in shard.get('deep_fault', ()):
+        for x in faults.deep_length_skew_frames(rnd, depth):
+            yield x
     for size in shard['big']:
         for x in faults.big_worst_cases(rnd, size):
             yield x
